@@ -191,9 +191,13 @@ section loop
 variable (ε : K)
 
 /-- invariant of the halving mode: the remaining time is a positive whole number of steps -/
-def InvH (o : Opts K) (ti te : K) (s : LoopState K) : Prop :=
-  (∃ n : ℕ, 1 ≤ n ∧ te - s.t = n * s.dt) ∧ s.dt * 2 ^ s.subStep = te - ti ∧
+def InvH (o : Opts K) (ti te : K) (s : LoopState K) (n : ℕ) : Prop :=
+  (1 ≤ n ∧ te - s.t = n * s.dt) ∧ s.dt * 2 ^ s.subStep = te - ti ∧
     Int.ofNat s.subStep < o.mSub
+
+/-- variant of the halving mode: bounds the number of attempts still possible -/
+def mu (o : Opts K) (s : LoopState K) (n : ℕ) : ℕ :=
+  n * 2 ^ (o.mSub.toNat - s.subStep) + (o.mSub.toNat - s.subStep)
 
 /-- invariant of the dynamic mode: the step goes exactly to `te`, or stops at least one minimal
 time step before it -/
@@ -211,14 +215,18 @@ theorem fc_hundred : (fieldConsts ε).hundred = 100 := rfl
 theorem fc_eps : (fieldConsts ε).eps = ε := rfl
 
 /-- halving mode, first part of the body -/
-theorem stepFirst_halving {o : Opts K} {ti te : K} {s : LoopState K} (r : Answer K)
+theorem stepFirst_halving {o : Opts K} {ti te : K} {s : LoopState K} {n : ℕ} (r : Answer K)
     (hdyn : o.dyn = false) (hε : 0 < ε) (hlt : ti < te)
-    (hbound : 100 * ε * 2 ^ o.mSub.toNat ≤ 1) (hinv : InvH o ti te s) :
+    (hbound : 100 * ε * 2 ^ o.mSub.toNat ≤ 1) (hinv : InvH o ti te s n) :
     match stepFirst (fieldConsts ε) o te (tEpsOf (fieldConsts ε) ti te) s r with
-    | .inl e => ∀ sf, e ≠ .ended sf
+    | .inl e => ∀ sf, e ≠ .ended sf ∧ e ≠ .exhausted sf
     | .inr (s', true) => s'.t = te
-    | .inr (s', false) => InvH o ti te s' := by
-  obtain ⟨⟨n, hn1, hn⟩, hdt, hsub⟩ := hinv
+    | .inr (s', false) => ∃ n', InvH o ti te s' n' ∧ mu o s' n' < mu o s n := by
+  obtain ⟨⟨hn1, hn⟩, hdt, hsub⟩ := hinv
+  have hsubM : s.subStep < o.mSub.toNat := by
+    have : (s.subStep : Int) < o.mSub := hsub
+    omega
+  have h2k : 1 ≤ 2 ^ (o.mSub.toNat - s.subStep) := Nat.one_le_two_pow
   have hpos : 0 < te - ti := sub_pos.mpr hlt
   have h2pos : (0 : K) < 2 ^ s.subStep := by positivity
   have hdtpos : 0 < s.dt := by
@@ -268,40 +276,56 @@ theorem stepFirst_halving {o : Opts K} {ti te : K} {s : LoopState K} (r : Answer
         exact decide_eq_false (not_lt.mpr (le_trans hdtge hge))
       have h2 : decide (te < s.t + s.dt) = false := decide_eq_false (by linarith)
       simp only [h1, h2, Bool.or_self]
-      exact ⟨⟨n - 1, by omega, hrem⟩, hdt, hsub⟩
+      refine ⟨n - 1, ⟨⟨by omega, hrem⟩, hdt, hsub⟩, ?_⟩
+      show (n - 1) * 2 ^ (o.mSub.toNat - s.subStep) + (o.mSub.toNat - s.subStep) <
+        n * 2 ^ (o.mSub.toNat - s.subStep) + (o.mSub.toNat - s.subStep)
+      have : n * 2 ^ (o.mSub.toNat - s.subStep) =
+          (n - 1) * 2 ^ (o.mSub.toNat - s.subStep) + 2 ^ (o.mSub.toNat - s.subStep) := by
+        have hn' : n = (n - 1) + 1 := by omega
+        conv_lhs => rw [hn']
+        ring
+      omega
   | false =>
     simp only [Bool.false_eq_true, if_false]
     split_ifs with hmax
-    · intro sf h; cases h
-    · refine ⟨⟨2 * n, by omega, ?_⟩, ?_, ?_⟩
+    · intro sf; exact ⟨(fun h => by cases h), (fun h => by cases h)⟩
+    · have hsub' : ((s.subStep + 1 : ℕ) : Int) < o.mSub := by
+        have h1 : (s.subStep : Int) < o.mSub := hsub
+        have h2 : ((s.subStep + 1 : ℕ) : Int) ≠ o.mSub := hmax
+        omega
+      refine ⟨2 * n, ⟨⟨by omega, ?_⟩, ?_, hsub'⟩, ?_⟩
       · simp only [fc_half]; push_cast; rw [hn]; ring
       · simp only [fc_half]; rw [← hdt, pow_succ]; ring
-      · have h1 : (s.subStep : Int) < o.mSub := hsub
-        have h2 : ((s.subStep + 1 : ℕ) : Int) ≠ o.mSub := hmax
-        show ((s.subStep + 1 : ℕ) : Int) < o.mSub
+      · show 2 * n * 2 ^ (o.mSub.toNat - (s.subStep + 1)) + (o.mSub.toNat - (s.subStep + 1)) <
+          n * 2 ^ (o.mSub.toNat - s.subStep) + (o.mSub.toNat - s.subStep)
+        have hd : o.mSub.toNat - s.subStep = (o.mSub.toNat - (s.subStep + 1)) + 1 := by omega
+        rw [hd, pow_succ]
+        have : 2 * n * 2 ^ (o.mSub.toNat - (s.subStep + 1)) =
+            n * (2 ^ (o.mSub.toNat - (s.subStep + 1)) * 2) := by ring
         omega
 
-theorem stepSecond_halving {o : Opts K} {ti te : K} {s : LoopState K}
-    (hdyn : o.dyn = false) (hinv : InvH o ti te s) :
+theorem stepSecond_halving {o : Opts K} {ti te : K} {s s0 : LoopState K} {n n0 : ℕ}
+    (hdyn : o.dyn = false) (hinv : InvH o ti te s n) (hmu : mu o s n < mu o s0 n0) :
     match stepSecond (fieldConsts ε) o te s with
-    | .inl e => ∀ sf, e ≠ .ended sf
+    | .inl e => ∀ sf, e ≠ .ended sf ∧ e ≠ .exhausted sf
     | .inr (s', true) => s'.t = te
-    | .inr (s', false) => InvH o ti te s' := by
+    | .inr (s', false) => ∃ n', InvH o ti te s' n' ∧ mu o s' n' < mu o s0 n0 := by
   unfold stepSecond clampDt
   simp only [hdyn, Bool.false_eq_true, if_false]
   split_ifs
-  · intro sf h; cases h
-  · intro sf h; cases h
-  · exact hinv
+  · intro sf; exact ⟨(fun h => by cases h), (fun h => by cases h)⟩
+  · intro sf; exact ⟨(fun h => by cases h), (fun h => by cases h)⟩
+  · exact ⟨n, hinv, hmu⟩
 
-theorem body_halving {o : Opts K} {ti te : K} {s : LoopState K} (r : Answer K)
+theorem body_halving {o : Opts K} {ti te : K} {s : LoopState K} {n : ℕ} (r : Answer K)
     (hdyn : o.dyn = false) (hε : 0 < ε) (hlt : ti < te)
-    (hbound : 100 * ε * 2 ^ o.mSub.toNat ≤ 1) (hinv : InvH o ti te s) :
+    (hbound : 100 * ε * 2 ^ o.mSub.toNat ≤ 1) (hinv : InvH o ti te s n) :
     match body (fieldConsts ε) o te (tEpsOf (fieldConsts ε) ti te) s r with
-    | .inl e => ∀ sf, e ≠ .ended sf
+    | .inl e => ∀ sf, e ≠ .ended sf ∧ e ≠ .exhausted sf
     | .inr (s', true) => s'.t = te
-    | .inr (s', false) => InvH o ti te s' := by
-  have hinv' : InvH o ti te { s with iters := s.iters + r.iters, log := Event.attempt s.t s.dt :: s.log } := hinv
+    | .inr (s', false) => ∃ n', InvH o ti te s' n' ∧ mu o s' n' < mu o s n := by
+  have hinv' : InvH o ti te
+    { s with iters := s.iters + r.iters, log := Event.attempt s.t s.dt :: s.log } n := hinv
   have h1 := stepFirst_halving (ε := ε) r hdyn hε hlt hbound hinv'
   unfold body
   dsimp only
@@ -312,38 +336,64 @@ theorem body_halving {o : Opts K} {ti te : K} {s : LoopState K} (r : Answer K)
   · rw [hres] at h1
     cases b with
     | true => exact h1
-    | false => exact stepSecond_halving hdyn h1
+    | false =>
+      obtain ⟨n', hinv1, hmu⟩ := h1
+      exact stepSecond_halving (s0 := s) hdyn hinv1 hmu
 
 theorem loop_halving {o : Opts K} {ti te : K} (hdyn : o.dyn = false) (hε : 0 < ε) (hlt : ti < te)
     (hbound : 100 * ε * 2 ^ o.mSub.toNat ≤ 1) (script : List (Answer K)) :
-    ∀ (s sf : LoopState K), InvH o ti te s →
-      loop (fieldConsts ε) o te (tEpsOf (fieldConsts ε) ti te) script s = .ended sf → sf.t = te := by
+    ∀ (s : LoopState K) (n : ℕ), InvH o ti te s n →
+      (∀ sf, loop (fieldConsts ε) o te (tEpsOf (fieldConsts ε) ti te) script s = .ended sf → sf.t = te) ∧
+      (mu o s n ≤ script.length →
+        ∀ sf, loop (fieldConsts ε) o te (tEpsOf (fieldConsts ε) ti te) script s ≠ .exhausted sf) := by
   induction script with
   | nil =>
-    intro s sf hinv h
-    unfold loop at h
+    intro s n hinv
     have hne : ¬ Int.ofNat s.subStep = o.mSub := ne_of_lt hinv.2.2
-    simp only [hne, if_false] at h
-    cases h
+    constructor
+    · intro sf h
+      unfold loop at h
+      simp only [hne, if_false] at h
+      cases h
+    · intro hlen
+      have hpos : 1 ≤ mu o s n := by
+        have h1 : 1 ≤ n := hinv.1.1
+        have h2 : 1 ≤ 2 ^ (o.mSub.toNat - s.subStep) := Nat.one_le_two_pow
+        have : 1 ≤ n * 2 ^ (o.mSub.toNat - s.subStep) := Nat.mul_le_mul h1 h2
+        unfold mu
+        omega
+      simp at hlen
+      omega
   | cons r rs ih =>
-    intro s sf hinv h
-    unfold loop at h
+    intro s n hinv
     have hne : ¬ Int.ofNat s.subStep = o.mSub := ne_of_lt hinv.2.2
-    simp only [hne, if_false] at h
     have hb := body_halving (ε := ε) r hdyn hε hlt hbound hinv
+    have hunf : loop (fieldConsts ε) o te (tEpsOf (fieldConsts ε) ti te) (r :: rs) s =
+        match body (fieldConsts ε) o te (tEpsOf (fieldConsts ε) ti te) s r with
+        | .inl e => e
+        | .inr (s', true) => .ended s'
+        | .inr (s', false) => loop (fieldConsts ε) o te (tEpsOf (fieldConsts ε) ti te) rs s' := by
+      rw [loop]
+      simp only [hne, if_false]
+    rw [hunf]
     rcases hres : body (fieldConsts ε) o te (tEpsOf (fieldConsts ε) ti te) s r with e | ⟨s', b⟩
-    · rw [hres] at h hb
-      simp only at h hb
-      exact absurd h (hb sf)
-    · rw [hres] at h hb
+    · rw [hres] at hb
+      simp only at hb ⊢
+      exact ⟨fun sf h => absurd h (hb sf).1, fun _ sf h => absurd h (hb sf).2⟩
+    · rw [hres] at hb
       cases b with
       | true =>
-        simp only at h hb
+        simp only at hb ⊢
+        refine ⟨fun sf h => ?_, (fun _ sf h => by cases h)⟩
         cases h
         exact hb
       | false =>
-        simp only at h hb
-        exact ih s' sf hb h
+        simp only at hb ⊢
+        obtain ⟨n', hinv', hmu⟩ := hb
+        have := ih s' n' hinv'
+        refine ⟨this.1, fun hlen => this.2 ?_⟩
+        simp at hlen
+        omega
 
 /-! ### dynamic time step scaling -/
 
@@ -364,49 +414,50 @@ theorem stepFirst_dynamic {o : Opts K} {te tEps : K} {s : LoopState K} (r : Answ
   generalize (r.first && decide ((fieldConsts ε).aone ≤ r.second)) = conv
   cases conv with
   | true =>
-    simp only [if_true, fc_abs]
-    generalize hfin : (decide (|te - (s.t + s.dt)| < tEps) || decide (te < s.t + s.dt)) = fin
-    cases fin with
-    | false => exact hsub
-    | true =>
+    simp only [if_true]
+    by_cases hfin : (decide ((fieldConsts ε).abs (te - (s.t + s.dt)) < tEps) || decide (te < s.t + s.dt)) = true
+    · simp only [hfin]
       show s.t + s.dt ≤ te ∧ (s.t + s.dt = te ∨ (te - (s.t + s.dt) < tEps ∧ max o.minTs 0 ≤ te - (s.t + s.dt)))
       rcases hdt with hdt | hdt
       · exact ⟨by linarith, Or.inl (by linarith)⟩
       · have hnn : 0 ≤ te - (s.t + s.dt) := by linarith
         refine ⟨by linarith, Or.inr ⟨?_, by linarith⟩⟩
         rcases Bool.or_eq_true _ _ |>.mp hfin with h | h
-        · have := of_decide_eq_true h
-          rwa [abs_of_nonneg hnn] at this
+        · have h' : |te - (s.t + s.dt)| < tEps := of_decide_eq_true h
+          rwa [abs_of_nonneg hnn] at h'
         · have := of_decide_eq_true h
           linarith
+    · have hfin' : (decide ((fieldConsts ε).abs (te - (s.t + s.dt)) < tEps) || decide (te < s.t + s.dt)) = false := by
+        simpa using hfin
+      simp only [hfin']
+      exact hsub
   | false =>
     simp only [Bool.false_eq_true, if_false]
-    split_ifs with hmax
-    · intro sf h; cases h
-    · exact hmax
+    split_ifs with hmax <;> first | (intro sf h; cases h) | exact hmax
 
 theorem clampDt_dynamic {o : Opts K} {te : K} {s : LoopState K} (hdyn : o.dyn = true) :
     clampDt (fieldConsts ε) o te s = te - s.t ∨
       clampDt (fieldConsts ε) o te s ≤ te - s.t - max o.minTs 0 := by
   unfold clampDt
-  simp only [hdyn, if_true, fc_zero, cmax_eq_max]
-  split_ifs with h1 h2 h2
+  simp only [hdyn, if_true]
+  generalize (if (fieldConsts ε).zero < o.maxTs then cmin s.dt o.maxTs else s.dt) = d
+  rw [cmax_eq_max]
+  split_ifs with h
   · exact Or.inl rfl
-  · exact Or.inr (not_lt.mp h2)
-  · exact Or.inl rfl
-  · exact Or.inr (not_lt.mp h2)
+  · exact Or.inr (not_lt.mp h)
 
-theorem stepSecond_dynamic {o : Opts K} {te : K} {s : LoopState K}
+theorem stepSecond_dynamic {o : Opts K} {te tEps : K} {s : LoopState K}
     (hdyn : o.dyn = true) (hsub : Int.ofNat s.subStep ≠ o.mSub) :
     match stepSecond (fieldConsts ε) o te s with
     | .inl e => ∀ sf, e ≠ .ended sf
-    | .inr (s', b) => b = false ∧ InvD o te s' := by
+    | .inr (s', true) => Reached o te tEps s'
+    | .inr (s', false) => InvD o te s' := by
   unfold stepSecond
   dsimp only
   split_ifs
   · intro sf h; cases h
   · intro sf h; cases h
-  · exact ⟨rfl, clampDt_dynamic hdyn, hsub⟩
+  · exact ⟨clampDt_dynamic hdyn, hsub⟩
 
 theorem body_dynamic {o : Opts K} {te tEps : K} {s : LoopState K} (r : Answer K)
     (hdyn : o.dyn = true) (hinv : InvD o te s) :
@@ -426,14 +477,7 @@ theorem body_dynamic {o : Opts K} {te tEps : K} {s : LoopState K} (r : Answer K)
     cases b with
     | true => exact h1
     | false =>
-      have h2 := stepSecond_dynamic (ε := ε) (te := te) hdyn h1
-      rcases hres2 : stepSecond (fieldConsts ε) o te s' with e | ⟨s'', b⟩
-      · rw [hres2] at h2
-        exact h2
-      · rw [hres2] at h2
-        obtain ⟨hb, hinv''⟩ := h2
-        subst hb
-        exact hinv''
+      exact stepSecond_dynamic (ε := ε) (te := te) (tEps := tEps) hdyn h1
 
 theorem loop_dynamic {o : Opts K} {te tEps : K} (hdyn : o.dyn = true) (script : List (Answer K)) :
     ∀ (s sf : LoopState K), InvD o te s →
